@@ -382,6 +382,8 @@ def gen_case(rng, tier, ctx, i):
                 cand = [a["id"] for a in n["args"] if a.get("id")]
                 if cand and rng.random() < 0.8:
                     n["default"] = [rng.choice(cand)]
+                    if len(cand) >= 3 and rng.random() < 0.25:
+                        n["default"] = rng.sample(cand, 2)          # a list of defaults (only the first one is used for the priorities): still a disjunction / exactly-one of all
                 ctx.count("count:configurator-any-xor")
     if rng.random() < 0.3:
         for n in refmodel.recipe_nodes(rec):
